@@ -181,6 +181,6 @@ func loadRuntimeUnit() (*Unit, []string, error) {
 		"modifies Elems.Int at b where b == sbase(x)")}
 	u.TrustedExt["fmt.Sprintf"] = &ExtSpec{Key: "fmt.Sprintf", Params: []string{"format"}}
 	u.TrustedExt["strconv.Quote"] = &ExtSpec{Key: "strconv.Quote", Params: []string{"s"}}
-	keys := []string{"tokens.Add", "tokens.Trim", "Init.add", "Init.matchDot", "translatePositions"}
+	keys := []string{"tokens.Add", "tokens.Trim", "Init.add", "Init.matchDot", "translatePositions", "Init.reset", "Init.parse", "parseError.Error"}
 	return u, keys, nil
 }
